@@ -102,9 +102,9 @@ func (r *RigS) onRegistration(st *SimStream) {
 		// by-dev-replicate-msg_<task>v0
 		task := strings.TrimSuffix(strings.TrimPrefix(st.VCh, replicateChan+"_"), "v0")
 		if t := r.st.Tasks[task]; t != nil && t.Spec != nil {
-			r.pairTarget[clientNo(st.Client)/2] = t.Spec.Target % 2
+			r.pairTarget[clientNo(st.Client)/2] = t.Spec.tgt()
 		} else if idx := r.st.InFlight; idx >= 0 && r.sc.Ops[idx].K == "create" && r.sc.Ops[idx].Task == task {
-			r.pairTarget[clientNo(st.Client)/2] = r.sc.Ops[idx].Spec.Target % 2
+			r.pairTarget[clientNo(st.Client)/2] = r.sc.Ops[idx].Spec.tgt()
 		}
 		return
 	}
@@ -123,7 +123,7 @@ func (r *RigS) onRegistration(st *SimStream) {
 		if poss, err := r.storePositions(); err == nil {
 			for _, p := range poss {
 				t := r.st.Tasks[p.TaskID]
-				if p.CollectionID != st.Coll || t == nil || t.Spec == nil || t.Spec.Target%2 != tgt {
+				if p.CollectionID != st.Coll || t == nil || t.Spec == nil || t.Spec.tgt() != tgt {
 					continue
 				}
 				if pi := p.Positions[st.PCh]; pi != nil && !pi.Dropped && pi.DataPair != nil {
@@ -217,7 +217,10 @@ func (r *RigS) checkCheckpoints() {
 		if t == nil || t.Spec == nil || p.CollectionID <= 0 {
 			continue
 		}
-		tgt := t.Spec.Target % 2
+		tgt := t.Spec.tgt()
+		if tgt < 0 {
+			continue
+		}
 		fk := fmt.Sprintf("%s/%d", p.TaskID, p.CollectionID)
 		cb, _ := json.Marshal(p.Positions)
 		canon := string(cb)
@@ -592,7 +595,7 @@ func (r *RigS) checkViews(tasks map[string]*meta.TaskInfo, sn server.VerifSnapsh
 		}
 		if memv == "Running" {
 			if t, ok := tasks[id]; ok {
-				uri := t.MilvusConnectParam.URI
+				uri := ukeyOf(t)
 				running[uri] = append(running[uri], id)
 			}
 		}
@@ -672,6 +675,14 @@ func (r *RigS) checkViews(tasks map[string]*meta.TaskInfo, sn server.VerifSnapsh
 	}
 }
 
+// ukeyOf: the downstream a task replicates to (the key of the per-target resources and bookkeeping).
+func ukeyOf(t *meta.TaskInfo) string {
+	if t.MilvusConnectParam.URI != "" {
+		return t.MilvusConnectParam.URI
+	}
+	return t.KafkaConnectParam.Address
+}
+
 func collInfoOf(name string) *pb.CollectionInfo {
 	return &pb.CollectionInfo{Schema: &schemapb.CollectionSchema{Name: name}}
 }
@@ -683,7 +694,7 @@ var uniColls = []string{"c1", "c2", "c3", "zz"}
 func (r *RigS) checkOwnership(tasks map[string]*meta.TaskInfo, sn server.VerifSnapshot, o *SOpRec, clean bool) {
 	byTarget := map[string][]string{}
 	for id, t := range tasks {
-		byTarget[t.MilvusConnectParam.URI] = append(byTarget[t.MilvusConnectParam.URI], id)
+		byTarget[ukeyOf(t)] = append(byTarget[ukeyOf(t)], id)
 	}
 	for _, uri := range SortedKeys(byTarget) {
 		ids := byTarget[uri]
@@ -736,7 +747,7 @@ func (r *RigS) checkOwnership(tasks map[string]*meta.TaskInfo, sn server.VerifSn
 	impl := server.VerifSnapshot{CollectionNames: map[string][]string{}, ExcludeData: map[string][]string{}, EnableUserRole: map[string]bool{}}
 	for _, id := range SortedKeys(tasks) {
 		ti := tasks[id]
-		uri := ti.MilvusConnectParam.URI
+		uri := ukeyOf(ti)
 		impl.CollectionNames[uri] = append(impl.CollectionNames[uri], server.GetCollectionNamesFromTaskInfo(ti)...)
 		for _, x := range ti.ExcludeCollections {
 			if !contains(impl.ExcludeData[uri], x) {
